@@ -206,6 +206,8 @@ pub fn adjust(cfg: &mut SwarmCfg, tier: &str, r: &mut Prng) {
             setw(cfg, "obs_snapshot", 4);
             setw(cfg, "obs_propose", 6);
             setw(cfg, "obs_stale_ref", 6);
+            setw(cfg, "forge", 8);
+            cfg.faults.push("B-FORGE".into());
             setw(cfg, "nm_propose", 3);
             setw(cfg, "commit", 14);
             setw(cfg, "propose", 8);
